@@ -219,6 +219,9 @@ def gen_lineage(rng):
         c["vevents"] = [ev for ev in c["vevents"] if ev[0] != "multiplicative volume"]
         if c["splitter"]["options"]["volume"] == "duplicate": c["splitter"]["options"]["volume"] = "binomial"
         if len(c["times"]) > 40: c["parameters"]["kde"] = min(c["parameters"]["kde"], 0.1)
+    # volume events that multiply the volume at a rate proportional to a count, next to a division rule on the volume: the volume (and
+    # with duplicated species the population) runs away; such models are not generated for whole lineages
+    if any(dr[0] in ("volume", "deltaV") for dr in c["drules"]): c["vevents"] = [ev for ev in c["vevents"] if ev[0] != "multiplicative volume"]
     if c.get("rules_cannot_fire"):
         c["parameters"]["thr_t"] = 1000.0; c["parameters"]["thr_v"] = 1000.0; c["parameters"]["thr_d"] = 1000.0
         c["drules"] = [dr[:2] for dr in c["drules"]]      # no noise term that could reach the threshold
